@@ -35,7 +35,7 @@ mod verif_cmap_reader {
         None
     }
 
-    //@defaults unit=U08.2 props=C08,C01,C20 tier=quick level=bounded bound="any bytes <=36 B forming <=2 segments (sorted by end code, as the format requires); every code point" timeout=900
+    //@defaults unit=U08.2 props=C08,C01 tier=quick level=bounded bound="any bytes <=36 B forming <=2 segments (sorted by end code, as the format requires); every code point" timeout=900
     //@harness fns=Cmap4::map_codepoint,Cmap4::lookup_glyph_id
     #[kani::proof]
     #[kani::unwind(4)]
@@ -133,7 +133,7 @@ mod verif_cmap_reader {
         }
         None
     }
-    //@defaults unit=U08.3 props=C08,C01,C20 tier=quick level=bounded bound="any bytes <=40 B forming <=2 groups (sorted, non-overlapping); every code point" timeout=900
+    //@defaults unit=U08.3 props=C08,C01 tier=quick level=bounded bound="any bytes <=40 B forming <=2 groups (sorted, non-overlapping); every code point" timeout=900
     //@harness fns=Cmap12::map_codepoint,Cmap12::lookup_glyph_id
     #[kani::proof]
     #[kani::unwind(4)]
